@@ -38,19 +38,26 @@ def sig_entry(t, name, Loh, rich):
     return sd, sig, oh
 
 
-def build(eng, ns, N=2, M=2, Loh=4, rich=False, junk=True, any_args=False, thr_kinds=('int', 'bool', 'float'), modes=(True, False)):
-    t = T(eng, ns=ns)
-    payload = t.payload('payload', dict)
+def make_sigs(t, N, Loh=4, rich=False, junk=True, gpg_only=False):
+    """signature map template: N entries under free keys (+ one junk entry)"""
     slots, real = [], []
     for i in range(N):
         key = t.str(f'k{i}', 66)
         sd, sig, oh = sig_entry(t, f'e{i}', Loh, rich)
+        if gpg_only:
+            sd.slots[1][0] = True
         val = t.anyjson(f'e{i}.v', first=[('entry', sd)]) if rich else sd
         slots.append((key, val))
         real.append(dict(key=key, entry=sd, val=val, sig=sig, oh=oh, idx=i))
     if junk:
         slots.append((t.str('junk.k', 3), t.anyjson('junk.v', strL=3)))
-    sigs = t.sdict('sigs', slots)
+    return t.sdict('sigs', slots), real
+
+
+def build(eng, ns, N=2, M=2, Loh=4, rich=False, junk=True, any_args=False, thr_kinds=('int', 'bool', 'float'), modes=(True, False)):
+    t = T(eng, ns=ns)
+    payload = t.payload('payload', dict)
+    sigs, real = make_sigs(t, N, Loh, rich, junk)
     env = {'signatures': sigs, 'signed': payload}
     signable = env
     if any_args:
@@ -84,9 +91,8 @@ def entry_strings(r):
     return r['sig'], r['oh']
 
 
-def slot_facts(it, tp, r, mode_gpg):
-    """z3 facts about real slot r: present, key canonical, authorised, shapes, Valid in the given mode"""
-    sigs = tp['sigs']
+def slot_facts(it, sigs, r, mode_gpg, keylist, keyitems, msg_raw):
+    """z3 facts about signature-map slot r w.r.t. an authorised key list and the canonical payload bytes"""
     p = zb(sigs.slots[r['idx']][0])
     key, sd, sig, oh = r['key'], r['entry'], r['sig'], r['oh']
     is_entry = (r['val'].tag == 0) if isinstance(r['val'], SAny) else z3.BoolVal(True)
@@ -100,10 +106,9 @@ def slot_facts(it, tp, r, mode_gpg):
     sa_ok = z3.Or(z3.Not(pa), spec_over(sav, p_canon(40))) if sav is not None else z3.BoolVal(True)
     raw_shape = z3.And(sig_ok, z3.Not(po), z3.Not(pa), z3.Not(pz))
     gpg_shape = z3.And(sig_ok, oh_ok, sa_ok, z3.Not(pz))
-    in_auth = zor([z3.And(tp['auth'].n > j, spec_over(a, lambda x: key.eq_sym(x) if isinstance(x, SStr) else False))
-                   for j, a in enumerate(tp['auth_items'])])
+    in_auth = zor([z3.And(keylist.n > j, spec_over(a, lambda x: key.eq_sym(x) if isinstance(x, SStr) else False))
+                   for j, a in enumerate(keyitems)])
     keyb, sigb = mk_hex_bytes(it, key), mk_hex_bytes(it, sig)
-    msg_raw = canon_of(it, tp['payload'])
     ohb = mk_hex_bytes(it, oh)
     msg_gpg = SBytes('digest', alg='SHA256', parts=[msg_raw, ohb, b'\x04\xff', SBytes('packed', fmt='>I', e=oh.n / 2)])
     v_raw = valid(it, keyb, sigb, msg_raw)
@@ -115,14 +120,25 @@ def slot_facts(it, tp, r, mode_gpg):
     return dict(liberal=liberal, strict=strict, present=p)
 
 
-def oracle(it, tp):
-    mode = gpg_truth(tp['gpg'])
-    facts = [slot_facts(it, tp, r, mode) for r in tp['real']]
+def counts(it, sigs, real, mode_gpg, keylist, keyitems, msg_raw):
+    """(liberal, strict) number of contributing signature-map entries (keys of present entries are distinct)"""
+    facts = [slot_facts(it, sigs, r, mode_gpg, keylist, keyitems, msg_raw) for r in real]
     lib = z3.Sum([z3.If(f['liberal'], 1, 0) for f in facts] + [z3.IntVal(0)])
     strict = z3.Sum([z3.If(f['strict'], 1, 0) for f in facts] + [z3.IntVal(0)])
-    thr = tp['thr']
-    thr_ok = spec_over(thr, p_int_ge1)                      # a Python int (or True) >= 1
-    thr_val = z3.Sum([z3.If(g, num_value(x) if num_value(x) is not None and isinstance(x, (SInt, SBool, int, bool)) else z3.IntVal(0), 0) for g, x in alt_cases(thr)])
+    return lib, strict, facts
+
+
+def int_thr(thr):
+    """(is a Python int / True and >= 1, its value) for a threshold template"""
+    ok = spec_over(thr, p_int_ge1)
+    val = z3.Sum([z3.If(g, num_value(x) if isinstance(x, (SInt, SBool, int, bool)) else z3.IntVal(0), 0) for g, x in alt_cases(thr)] + [z3.IntVal(0)])
+    return ok, val
+
+
+def oracle(it, tp):
+    mode = gpg_truth(tp['gpg'])
+    lib, strict, facts = counts(it, tp['sigs'], tp['real'], mode, tp['auth'], tp['auth_items'], canon_of(it, tp['payload']))
+    thr_ok, thr_val = int_thr(tp['thr'])
     auth_ok = zand([z3.Implies(tp['auth'].n > j, spec_over(a, p_canon(64))) for j, a in enumerate(tp['auth_items'])])
     if tp['any_args']:
         auth_ok = z3.And(tp['authv'].tag == 0, auth_ok)
